@@ -39,6 +39,7 @@ def build(lexmod, parmod):
     cs.append(Contract('calmjs.parse.utils:format_lex_token', params={'token': TOK}, ensures=['True'],
                        env={'repr_compat': PExt('repr_compat', lambda e, a, k: e.fresh(Str, 'repr'))}))
     cs.extend(build_raisers(lexmod, parmod))
+    cs.extend(build_broken_string(lexmod, parmod))
     return cs, [], {}
 
 
@@ -179,3 +180,100 @@ def build_raisers(lexmod, parmod):
                            env={'the_token': Helper(lambda e: state['tok']), 'calls': Helper(lambda e: state['calls'])},
                            notes='end of input' if end else 'a token'))
     return cs
+
+
+def build_broken_string(lexmod, parmod):
+    """broken_string_token_handler (registered in Lexer.error_token_handlers; C12): for ANY error token and ANY input text it either
+    returns (the token does not start like a string) or raises the library's syntax error -- no IndexError / KeyError / AttributeError
+    whatever follows the matched part (end of input, a lone backslash, `\\x` / `\\u` with or without hex digits).
+    Doubles: PATT_BROKEN_STRING.match answers None or a match whose group() is a prefix of the token text (free choice, arbitrary
+    length); the escape scan `re.match(<pattern>, rest)` answers a match exactly when `rest` starts with `\\x` or `\\u` -- that the
+    real pattern (read from the function's source) does so for every such text is the constant obligation
+    `lex.escape_scan_matches_every_x_u_prefix`; the lexer's column / line helpers are doubles (their own contracts: contracts/lexer.py)."""
+    import z3
+    from vf.pyvc.dsl import SBool, SStr, SInt
+    cs = []
+    rec = {}
+    for matched in (False, True):
+        class TokT(object):
+            def make(self, name):
+                o = PObj(object, name='errtok')
+                o.fields.update(type=Str.fresh('t_type'), value=Str.fresh('t_value'), lineno=Int.fresh('t_lineno'), lexpos=Int.fresh('t_lexpos'))
+                rec['tok'] = o
+                return o
+
+        class LexT(object):
+            def make(self, name):
+                rec.clear()
+                o = PObj(lexmod.Lexer, name='lexer')
+                inner = PObj(object, name='plylexer')
+                inner.fields['lexpos'] = Int.fresh('ply_lexpos')
+                inner.fields['lexdata'] = Str.fresh('lexdata')
+                o.fields['lexer'] = inner
+                o.fields['lineno'] = Int.fresh('lexer_lineno')
+                o.fields['_get_colno'] = PExt('Lexer._get_colno', lambda e, a, k: e.fresh(Int, 'colno'))
+                o.fields['_get_colno_lexpos'] = PExt('Lexer._get_colno_lexpos', lambda e, a, k: e.fresh(Int, 'colno2'))
+                o.fields['_update_newline_idx'] = PExt('Lexer._update_newline_idx', lambda e, a, k: None)
+                return o
+
+        def patt_match(e, a, k, matched=matched):
+            if not matched:
+                return None
+            m = PObj(object, name='match')
+            g = Str.fresh('matched_part')
+            # the matched part is a prefix of the text it was asked about
+            e.assume(z3.PrefixOf(g.t, a[0].t))
+            m.fields['group'] = PExt('match.group', lambda e2, a2, k2: g)
+            return m
+        patt = PObj(object, name='PATT_BROKEN_STRING')
+        patt.fields['match'] = PExt('PATT_BROKEN_STRING.match', patt_match)
+
+        def re_match(e, a, k):
+            rest = a[1]
+            rt = rest.t if hasattr(rest, 't') else z3.StringVal(rest)
+            starts = z3.Or(z3.PrefixOf(z3.StringVal('\\x'), rt), z3.PrefixOf(z3.StringVal('\\u'), rt))
+            if e.branch(SBool(starts)):
+                m = PObj(object, name='escape_match')
+                m.fields['group'] = PExt('match.group', lambda e2, a2, k2: e2.fresh(Str, 'escape_text'))
+                return m
+            return None
+        re_double = PObj(object, name='re')
+        re_double.fields['match'] = PExt('re.match', re_match)
+        env = {'PATT_BROKEN_STRING': patt, 're': re_double, 'repr_compat': PExt('repr_compat', lambda e, a, k: e.fresh(Str, 'repr'))}
+        if matched:
+            cs.append(Contract(LEX + ':broken_string_token_handler', params={'lexer': LexT(), 'token': TokT()}, ensures=['False'],
+                               raises={'ECMASyntaxError': 'True'}, env=env, notes='the token starts like a string'))
+        else:
+            cs.append(Contract(LEX + ':broken_string_token_handler', params={'lexer': LexT(), 'token': TokT()}, ensures=['result is None'],
+                               env=env, notes='the token does not start like a string'))
+    return cs
+
+
+def escape_scan_obligation(run, lexmod):
+    """constant obligation behind the `re.match` double of build_broken_string: the pattern literal in the source of
+    broken_string_token_handler matches every text that starts with `\\x` or `\\u` (so `.group()` is never called on None)"""
+    import ast, inspect, re, time
+    t0 = time.time()
+    name = 'lex.escape_scan_matches_every_x_u_prefix'
+    src = inspect.getsource(lexmod.broken_string_token_handler)
+    pats = [n.args[0].value for n in ast.walk(ast.parse(src)) if isinstance(n, ast.Call) and isinstance(n.func, ast.Attribute) and n.func.attr == 'match'
+            and isinstance(n.func.value, ast.Name) and n.func.value.id == 're' and n.args and isinstance(n.args[0], ast.Constant) and isinstance(n.args[0].value, str)]
+    bad = None
+    if len(pats) != 1:
+        bad = 'expected one re.match(<literal>, ...) in the function, found %d' % len(pats)
+    else:
+        rx = re.compile(pats[0])
+        for pre in ('\\x', '\\u'):
+            if rx.match(pre) is None:
+                bad = 'no match for %r alone' % pre
+                break
+            for cp in range(0x110000):
+                if rx.match(pre + chr(cp)) is None:
+                    bad = 'no match for %r + U+%04X' % (pre, cp)
+                    break
+            if bad:
+                break
+    if bad is None:
+        run.discharged(name, 'E3/constants', 'exhaustive', int((time.time() - t0) * 1000), detail='pattern %r: both prefixes alone and followed by each of 0x110000 code points' % pats[0])
+    else:
+        run.failed(name, 'E3/constants', 'constant', dict(detail=bad), replayed=True, solver_output=bad)
